@@ -7,7 +7,7 @@
    The unchanged code is modelled as well ([launch_env_orig], [load_expand_sentinel]) and refuted below. *)
 From Coq Require Import String.
 From Coq Require Import List NArith Bool.
-From PC.Env Require Import Model Proofs Check ProofsCheck.
+From PC.Env Require Import Model Proofs ProofsSentinel Check ProofsCheck.
 Import ListNotations.
 Open Scope list_scope.
 
@@ -61,6 +61,20 @@ Theorem C17_expand_tokens_sentinel_refuted :
     load_expand_sentinel (getenv env) (print toks) <> denote (getenv env) toks.
 Proof. exact sentinel_refuted. Qed.
 Print Assumptions C17_expand_tokens_sentinel_refuted.
+
+(* ... it satisfies it under the extra (decidable) hypothesis that no '#' - the first byte of the placeholder -
+   occurs in the plain text and in the substituted values; on those inputs the repair F34 changes nothing *)
+Theorem C17_expand_tokens_sentinel_partial : forall (mapping : str -> str) (toks : list token),
+  wf_tokens toks = true -> hash_free mapping toks = true ->
+  load_expand_sentinel mapping (print toks) = denote mapping toks.
+Proof. exact expand_tokens_sentinel_partial. Qed.
+Print Assumptions C17_expand_tokens_sentinel_partial.
+
+Theorem C17_repair_F34_preserves : forall (mapping : str -> str) (toks : list token),
+  wf_tokens toks = true -> hash_free mapping toks = true ->
+  load_expand mapping (print toks) = load_expand_sentinel mapping (print toks).
+Proof. exact repair_preserves. Qed.
+Print Assumptions C17_repair_F34_preserves.
 
 (* "At launch every command receives ... the inherited, env_cmds, global and per-process variables, with
    per-process values taking precedence over global ones and global ones over inherited ones":
